@@ -26,7 +26,8 @@ META = {
         "tract per element. Decides these clauses, not the expansion of a "
         "concrete list."
         " Also: SecFinder takes over the SecUnpacker's flags, find_sec and construct_tracts walk the unpacked list unfiltered, both unpackers derive found_through from thru_rightmost alone."
-        ' Round 7: no de-duplication idiom (list(dict.fromkeys(..)), sorted(set(..))) in the parse path; no Twp/Rge pattern fires inside a section list followed by an E/W aliquot; result caches restore everything a miss sets.'),
+        ' Round 7: no de-duplication idiom (list(dict.fromkeys(..)), sorted(set(..))) in the parse path; no Twp/Rge pattern fires inside a section list followed by an E/W aliquot; result caches restore everything a miss sets.'
+        " Round 8: no in-place sort / reverse of another object's list; every emitted section gives a valid TRS; 'thru.' / 'through.' are range words."),
     'families': ['RX-LANG', 'RX-GROUPS', 'RANGE', 'SIB', 'PAIR', 'ROUTE', 'FORWARD', 'DEADPARAM', 'SIB-DEFAULTS'],
 }
 
